@@ -5,7 +5,7 @@
 From Coq Require Import Sorted.
 From stdpp Require Import gmap.
 Require Import Model.Base Model.Ante Model.Validate Model.Current Model.State Model.Staking Model.Slashing Model.Poa Model.App.
-Require Import proofs.Inv proofs.InvIdx proofs.L1Effects proofs.InvPres proofs.InvMsgs proofs.InvHistory proofs.InvQueue.
+Require Import proofs.EvBasic proofs.Inv proofs.InvIdx proofs.L1Effects proofs.InvPres proofs.InvMsgs proofs.InvHistory proofs.InvQueue.
 Open Scope Z_scope.
 
 Definition eligible (v : validator) : bool := negb (v_jailed v) && (0 <? v_power v).
@@ -127,10 +127,21 @@ Proof.
   destruct (handle_signature c k p _) as [c1|] eqn:E; [|discriminate]. apply IH. eapply handle_signature_IC; eauto.
 Qed.
 
-Lemma begin_block_IC c votes absent c' : IC (stk c) -> begin_block c votes absent = inl c' -> IC (stk c').
+Lemma handle_evidence_IC c e c' : IC (stk c) -> handle_evidence c e = Some c' -> IC (stk c').
+Proof.
+  intros HI H. apply handle_evidence_cases in H as [->|(id & v & i & c1 & s2 & _ & _ & _ & _ & _ & _ & Es & Hj & ->)]; [exact HI|].
+  cbn. pose proof (slash_ICP _ _ _ _ _ _ HI Es) as I1. destruct Hj as [[_ ->]|[_ Ej]]; [exact I1|eapply jail_ICP; eauto].
+Qed.
+
+Lemma handle_evidences_IC evs c c' : IC (stk c) -> handle_evidences evs c = Some c' -> IC (stk c').
+Proof. apply (handle_evidences_preserves (fun c => IC (stk c))). intros; eapply handle_evidence_IC; eauto. Qed.
+
+Lemma begin_block_IC c votes absent evs c' : IC (stk c) -> begin_block c votes absent evs = inl c' -> IC (stk c').
 Proof.
   intros HI. unfold begin_block. destruct (_ && _); [discriminate|]. destruct (handle_votes votes absent c) as [c1|] eqn:E; [|discriminate].
-  intros [= <-]. pose proof (handle_votes_IC _ _ _ _ HI E) as H1. unfold poa_begin_block. destruct (1 <? height c1); exact H1.
+  destruct (handle_evidences evs c1) as [c2|] eqn:E2; [|discriminate].
+  intros [= <-]. pose proof (handle_votes_IC _ _ _ _ HI E) as H1. pose proof (handle_evidences_IC _ _ _ H1 E2) as H2.
+  unfold poa_begin_block. destruct (1 <? height c2); exact H2.
 Qed.
 
 (* ---- SetPOAPower ---- *)
@@ -329,8 +340,8 @@ Proof.
   intros HI. unfold run_block. destruct (w_halted w); [exact HI|].
   set (c0 := with_clock (w_chain w) (height (w_chain w) + 1) (now (w_chain w) + b_dt b)).
   assert (Q0 : IC (stk c0)) by exact HI.
-  destruct (begin_block c0 _ (b_absent b)) as [c1|e] eqn:Eb; [|exact Q0].
-  pose proof (begin_block_IC _ _ _ _ Q0 Eb) as Q1.
+  destruct (begin_block c0 _ (b_absent b) (b_evidence b)) as [c1|e] eqn:Eb; [|exact Q0].
+  pose proof (begin_block_IC _ _ _ _ _ Q0 Eb) as Q1.
   pose proof (deliver_txs_IC (b_txs b) c1 Q1) as Q2.
   destruct (deliver_txs c1 (b_txs b)) as [c2 outs]. cbn in Q2.
   destruct (staking_end_block c2) as [c3 upd|e] eqn:Ee; [|exact Q2].
@@ -768,8 +779,8 @@ Proof.
   intros HCI HI Hset. unfold run_block. destruct (w_halted w) eqn:Hh; [cbn; rewrite Hh; discriminate|].
   set (c0 := with_clock (w_chain w) (height (w_chain w) + 1) (now (w_chain w) + b_dt b)).
   assert (H0 : CI c0) by (apply CI_clock; exact HCI). assert (Q0 : IC (stk c0)) by exact HI.
-  destruct (begin_block c0 _ (b_absent b)) as [c1|e] eqn:Eb; [|cbn; discriminate].
-  pose proof (begin_block_CI _ _ _ _ H0 Eb) as H1. pose proof (begin_block_IC _ _ _ _ Q0 Eb) as Q1.
+  destruct (begin_block c0 _ (b_absent b) (b_evidence b)) as [c1|e] eqn:Eb; [|cbn; discriminate].
+  pose proof (begin_block_CI _ _ _ _ _ H0 Eb) as H1. pose proof (begin_block_IC _ _ _ _ _ Q0 Eb) as Q1.
   pose proof (deliver_txs_CI (b_txs b) c1 H1) as H2. pose proof (deliver_txs_IC (b_txs b) c1 Q1) as Q2.
   destruct (deliver_txs c1 (b_txs b)) as [c2 outs]. cbn in H2, Q2.
   destruct (staking_end_block c2) as [c3 upd|e] eqn:Ee; [|cbn; discriminate].
@@ -919,8 +930,8 @@ Proof.
   intros HCI Hset. unfold run_block. destruct (w_halted w) eqn:Hh; [cbn; rewrite Hh; discriminate|].
   set (c0 := with_clock (w_chain w) (height (w_chain w) + 1) (now (w_chain w) + b_dt b)).
   assert (H0 : CI c0) by (apply CI_clock; exact HCI).
-  destruct (begin_block c0 _ (b_absent b)) as [c1|e] eqn:Eb; [|cbn; discriminate].
-  pose proof (begin_block_CI _ _ _ _ H0 Eb) as H1.
+  destruct (begin_block c0 _ (b_absent b) (b_evidence b)) as [c1|e] eqn:Eb; [|cbn; discriminate].
+  pose proof (begin_block_CI _ _ _ _ _ H0 Eb) as H1.
   pose proof (deliver_txs_CI (b_txs b) c1 H1) as H2.
   destruct (deliver_txs c1 (b_txs b)) as [c2 outs]. cbn in H2.
   destruct (staking_end_block c2) as [c3 upd|e] eqn:Ee; [|cbn; discriminate].
